@@ -236,8 +236,10 @@ def main(argv: list[str]) -> int:
         'wall_s': wall,
         'violations': len(violations),
     }
-    EVID.mkdir(exist_ok=True)
-    jdump(ev, str(EVID / f'{pid}.json'))
+    # runs against a scratch copy (OCV_REPO, used for seeded changes) must not overwrite the evidence of /repo itself
+    evid_dir = EVID if not os.environ.get('OCV_REPO') else VERIF / '.build' / 'evidence-scratch'
+    evid_dir.mkdir(parents=True, exist_ok=True)
+    jdump(ev, str(evid_dir / f'{pid}.json'))
 
     for line in sorted(set(known_hits)):
         print(line)
